@@ -42,11 +42,13 @@ Init == doc = <<>> /\ depth = 0 /\ fin = FALSE
 
 AddOpen ==
   /\ ~fin /\ Len(doc) < MaxItems /\ depth < MaxDepth
-  /\ \E ds \in {{}} \cup { {d} : d \in Decl }, a1 \in Attr \cup {[f |-> "none"]}, a2 \in Attr \cup {[f |-> "none"]}, ep \in ElemP, dfirst \in BOOLEAN :
+  /\ \E ds \in {{}} \cup { {d} : d \in Decl }, a1 \in Attr \cup {[f |-> "none"]}, a2 \in Attr \cup {[f |-> "none"]}, ep \in ElemP, dfirst \in BOOLEAN,
+        sc \in BOOLEAN :        \* sc: a self-closing element (its declarations end with it)
        /\ (a1.f = "none" => a2.f = "none")
        /\ doc' = Append(doc, [k |-> "open", ds |-> ds, as |-> SelectSeq(<<a1, a2>>, LAMBDA a : a.f # "none"),
-                               ep |-> ep, dfirst |-> dfirst])
-  /\ depth' = depth + 1 /\ UNCHANGED fin
+                               ep |-> ep, dfirst |-> dfirst, sc |-> sc])
+       /\ depth' = IF sc THEN depth ELSE depth + 1
+  /\ UNCHANGED fin
 AddClose ==
   /\ ~fin /\ depth > 0
   /\ doc' = Append(doc, [k |-> "close"]) /\ depth' = depth - 1 /\ UNCHANGED fin
@@ -63,7 +65,8 @@ RECURSIVE MapsFrom(_, _, _)
 MapsFrom(n, stk, acc) ==
   IF n > Len(doc) THEN acc
   ELSE IF doc[n].k = "open"
-       THEN LET m == Apply(stk[Len(stk)], doc[n].ds) IN MapsFrom(n + 1, Append(stk, m), Append(acc, m))
+       THEN LET m == Apply(stk[Len(stk)], doc[n].ds) IN
+            MapsFrom(n + 1, IF doc[n].sc THEN stk ELSE Append(stk, m), Append(acc, m))
        ELSE MapsFrom(n + 1, SubSeq(stk, 1, Len(stk) - 1), Append(acc, stk[Len(stk)]))
 Maps == MapsFrom(1, <<Default>>, <<>>)
 
